@@ -182,7 +182,7 @@ def run_writer(cfg, res):
         s = float(cfg['shutdown'])
         regimes_c.append((s, s))
         regimes_u.append((s, s))
-        ns.settings['MIN_TIMESTAMP_LAG'] = 0
+        ns.settings.__dict__.pop('MIN_TIMESTAMP_LAG', None)
       writer.writeCachedDataPoints()
       vt.offset += r.choice([0, 0.001, 0.5, 1, 1, 60, 3600])
     cgr, ugr = [], []
